@@ -6,7 +6,7 @@
 //     own happens-before edges (its mutexes): a lock-discipline violation is reported even in a fully
 //     serialised schedule, a correctly locked pair is not;
 //   - scheduling points: every Lock/RLock of the shim (before the real operation) and every operation
-//     boundary of the harness; a thread at Lock(m) is enabled iff m is free, at RLock(m) iff no writer
+//     boundary of the harness; a thread at Lock(m) is enabled iff m is free, at RLock(m) iff no writer holds m and no writer waits for it
 //     holds m;
 //   - per complete schedule: deadlock check (no enabled thread, some unfinished) and linearizability
 //     of the recorded call/return history by brute force over all sequential orders consistent with
@@ -134,7 +134,19 @@ func (s *Sched) enabledThread(t int) bool {
 		}
 		return true
 	case pkRLock:
-		return s.mus[s.pendMu[t]].writer == -1
+		if s.mus[s.pendMu[t]].writer != -1 {
+			return false
+		}
+		// writer preference of sync.RWMutex: a writer that has called Lock (= a thread that has run up to its Lock
+		// point) blocks NEW readers, also a reader that already holds the lock and asks again (recursive read
+		// locking deadlocks exactly this way). Schedules in which the reader asks before the writer calls Lock are
+		// those in which the writer has not been run up to its Lock point yet.
+		for u := 0; u < s.n; u++ {
+			if u != t && !s.finished[u] && s.atPoint[u] && s.pendKind[u] == pkLock && s.pendMu[u] == s.pendMu[t] {
+				return false
+			}
+		}
+		return true
 	}
 	return false
 }
